@@ -949,6 +949,12 @@ def fam_trait_methods_exhaustive(rng):
                     for attr in ("", "delegate_by = ref", "delegate_by = Borrow", "FooImpl, delegate_by = Deleg", "FooImpl, delegate_by = ref"):
                         if rng.random() < 0.5:      # half of the product, chosen by the seed
                             out.append(Case("trait_methods_exhaustive", attr, "trait T { fn first(&self); %s fn last(&self, z: u8); }" % m))
+    # methods that return a future / an opaque or boxed type without being `async fn`
+    for ret in ("impl ::core::future::Future<Output = i32> + Send", "impl Future<Output = ()>", "impl Iterator<Item = u8> + '_",
+                "::core::pin::Pin<Box<dyn ::core::future::Future<Output = i32> + Send + '_>>", "Box<dyn Fn(i32) -> i32>"):
+        for recv in ("&self", "self"):
+            for attr in ("", "delegate_by = ref", "delegate_by = Borrow", "FooImpl, delegate_by = Deleg", "FooImpl, delegate_by = ref", "?Send"):
+                out.append(Case("trait_methods_exhaustive", attr, "trait T { fn m(%s, a: i32) -> %s; async fn n(&self); fn last(&self); }" % (recv, ret)))
     return out
 
 
@@ -1031,6 +1037,44 @@ def fam_nested_entrait(rng):
     return out
 
 
+# the option table on more item shapes than fam_c17's fixed ones (deterministic: no random choices): a module without visible
+# functions, with one, with a private one first; concrete and by-value dependencies; generic / async / unsafe functions
+C17_SHAPES = [
+    "mod m { }", "mod m { fn private(d: &impl A) {} }", "mod m { fn private() {} pub fn one(d: &impl A, a: i32) -> i32 { a } }",
+    "pub mod m { pub(crate) async fn a<D: A>(d: &D) {} pub(super) fn b<D: B>(d: D, x: u8) -> u8 { x } struct S; }",
+    "fn foo(deps: &App, a: i32) -> i32 { a }", "fn foo<D: A + Send>(deps: D, a: i32, b: i32) -> i32 { a }",
+    "pub async fn foo<'a, D: A, T: Send + Sync>(deps: &'a D, t: &'a T) -> &'a T { t }", "unsafe fn foo(deps: &impl A) {}",
+    "fn foo(deps: &impl A) -> impl Iterator<Item = u8> { core::iter::empty() }",
+]
+C17_SUBSETS = [["unimock", "mock_api = M"], ["mock_api = M"], ["mockall", "export"], ["unimock", "mock_api = M", "?Send", "mockall"], ["export"], []]
+
+
+def fam_c17_shapes(rng):
+    out = []
+    gid = 100000
+    for item in C17_SHAPES:
+        nd_ok = "deps" not in item and "d: " not in item
+        for subset in C17_SUBSETS:
+            subset = subset + (["no_deps"] if nd_ok else [])
+            bools = [k for k in subset if "=" not in k and k != "?Send"]
+            gid += 1
+            out.append(Case("c17_shapes", ", ".join(["Foo"] + subset), item, pair=(gid, "eq")))
+            out.append(Case("c17_shapes", ", ".join(["Foo"] + [(k + " = true" if k in bools else k) for k in subset]), item, pair=(gid, "eq")))
+            out.append(Case("c17_shapes", ", ".join(["Foo"] + subset[::-1]), item, pair=(gid, "eq")))
+            base = [k for k in subset if k != "export"]
+            gid += 1
+            out.append(Case("c17_shapes", ", ".join(["Foo"] + base), item, macro="entrait_export", pair=(gid, "eq")))
+            out.append(Case("c17_shapes", ", ".join(["Foo"] + base + ["export"]), item, macro="entrait", pair=(gid, "eq")))
+            out.append(Case("c17_shapes", ", ".join(["Foo"] + base + ["export = false"]), item, macro="entrait_export", pair=(gid, "eq2")))
+            out.append(Case("c17_shapes", ", ".join(["Foo"] + base + ["export = false"]), item, macro="entrait", pair=(gid, "eq2")))
+            base = [k for k in subset if k != "unimock"]
+            gid += 1
+            out.append(Case("c17_shapes", ", ".join(["Foo"] + base), item, pair=(gid, "feat_implicit")))
+            out.append(Case("c17_shapes", ", ".join(["Foo"] + base + ["unimock"]), item, pair=(gid, "feat_explicit")))
+            out.append(Case("c17_shapes", ", ".join(["Foo"] + base + ["unimock = false"]), item, pair=(gid, "feat_set")))
+    return out
+
+
 def build_corpus(seed, tier):
     rng = random.Random(seed)
     thorough = tier == "thorough"
@@ -1056,6 +1100,7 @@ def build_corpus(seed, tier):
     cases += fam_trait_header_exhaustive(rng)
     cases += fam_where_exhaustive(rng)
     cases += fam_nested_entrait(rng)
+    cases += fam_c17_shapes(rng)
     for i, c in enumerate(cases):
         c.cid = i
     return cases
